@@ -55,10 +55,10 @@ def run(ctx):
     med = [job(D, g, m, nfs, 62 + 8 * D, s, target=t) for D in ((1,) if q else (1, 2)) for g in ("lin", "log") for m in ("auto", "decl", "spec")
            for nfs in (0, 1, 3) for t in (("sphere_in",) if q else ("sphere_in", "sphere_corner")) for s in seeds]
     st = explore(med, ["noise"], 1, sink, stats=st, name="noise-scripts/b1", pos_ok=lambda k, p, r: (p % 2 == 0 and p >= 30) if q else True,
-                 cap=None if q else st["executions"] + 30000)
+                 cap=None if q else st["executions"] + 12000)
     if not q:
         st = explore([job(1, "lin", m, 1, 60, seeds[0]) for m in ("decl", "spec")], ["noise"], 2, sink, stats=st, name="noise-scripts/b2-window",
-                     pos_ok=lambda k, p, r: 34 <= p < 52, cap=st["executions"] + 20000)
+                     pos_ok=lambda k, p, r: 34 <= p < 52, cap=st["executions"] + 8000)
     # (c) noise-test cells (det/auto boundary)
     eps = float(np.spacing(1.0))
     cells = []
